@@ -647,6 +647,11 @@ class ModelEval(Evaluator):
                 return a == b
             if isinstance(op, ast.NotEq):
                 return not (a == b)
+        if isinstance(op, (ast.Eq, ast.NotEq)):
+            # ndarray == number is ELEMENT-WISE (a boolean array whose truth is the element's), not the identity of two python objects
+            for x, y in ((a, b), (b, a)):
+                if type(x).__name__ == "RawTok" and isinstance(y, (int, float)) and not isinstance(y, bool):
+                    return x._bin("==" if isinstance(op, ast.Eq) else "!=", y)
         return super().compare(node, op, a, b)
 
     def contains(self, container, item, node=None):
